@@ -127,6 +127,15 @@ CLAIMED = {
              "alone (a table of ~60 operations on parameter vs plain value for all five classes, plus copy/deepcopy/pickle 0-5 on "
              "real values and packets).",
         design="§7 C20", technique="Lean 4 proof (reconstruction protocol model) + operation-table correspondence on the real classes"),
+    "C18": dict(
+        text="rows_per_apid / create_rows (the rows of an APID are the cells of that APID's packets in stream order, files in the "
+             "order given: the accumulation loop equals a filter of the concatenated packet list), rejects_mixed (differing field "
+             "sets are rejected), fits_unsigned / fits_signed (the dtype requested for an uncalibrated integer encoding of <= 64 "
+             "bits holds every value the encoding produces), enum_is_str. PARTIAL: numpy's array conversion and xarray's Dataset "
+             "are outside the model; that each stored cell equals the parsed value is observed by the correspondence on real "
+             "datasets (dtype and every cell compared). Two recorded open findings (NUL stripping in bytes/str columns; raw "
+             "string buffers stored through a 'str' dtype) are reported as KNOWN-FINDING and any other difference is a violation.",
+        design="§7 C18", technique="Lean 4 proof (fold = filter; range arithmetic) + cell-by-cell correspondence on real datasets"),
 }
 
 NOT_YET = "check not built yet (work in progress; see DESIGN.md §11 build order)"
